@@ -60,6 +60,9 @@ def shards(tier, seed):
              spaces.cfg_pqr(1, 0, 1), 'bin', ('S', 2), right4, 4, ops=['gp', 'sw', 'proj', 'op', 'ip', 'add'], tiny=True)
     sh += mk('float coefficients of magnitude 1e-7 mixed with symbols (products below 1e-12 are still coefficients): 6 operators x subsets <=2 blades x 4 right operands x all partitions',
              main, 'un', ('S', None), ('B',), 1, ops=['normsq', 'reverse', 'hodge'], tiny=True)
+    for i in range(5):
+        sh.append(dict(stratum='coefficients that are non-polynomial sympy expressions (sqrt, log, cube root, exp of products), compared as functions at negative symbol values',
+                       cfg=main, kind='exprcoef', chunk=(i, 5)))
     sh.append(dict(stratum='call history: 18 symbolic multivectors of one key pattern called one after the other (two orders)', cfg=main, kind='callhist'))
     sh.append(dict(stratum='call history: 18 symbolic multivectors of one key pattern called one after the other (two orders)', cfg=spaces.cfg_pqr(2, 0, 1), kind='callhist'))
     others = [spaces.cfg_pqr(1, 0, 1), spaces.cfg_pqr(1, 1, 0)] if tier == 'quick' else [spaces.cfg_sig(s) for s in spaces.sig(2)[1:]]
@@ -135,9 +138,60 @@ def run_call_history(shard):
     return res.asdict()
 
 
+def run_exprcoef(shard):
+    """Coefficients that are sympy expressions which are not polynomial in the symbols (roots, logarithms, exponentials of
+    products): the result is compared *as a function* at a point where the symbols are negative (u*v > 0, u < 0, v < 0), so
+    any rewriting that is only valid for positive symbols (sqrt(u*v) -> sqrt(u)*sqrt(v)) shows."""
+    import sympy
+    res = Result()
+    cfg = shard['cfg']
+    alg = make_algebra(cfg)
+    name = cfg_name(cfg)
+    u, v = sympy.Symbol('u'), sympy.Symbol('v')
+    env = {u: sympy.Rational(-2), v: sympy.Rational(-3)}
+    exprs = [sympy.sqrt(u * v), sympy.log(u * v), (u * v) ** sympy.Rational(1, 3), sympy.sqrt(u * v) + u, sympy.exp(u) * sympy.sqrt(u * v * v * v / v)]
+    c = tuple(alg.canon2bin.values())
+    lefts = [t for t in spaces.S(c, 2) if t]
+    i0, n = shard.get('chunk', (0, 1))
+    lefts = spaces.chunks(lefts, n)[i0]
+    rights = [(c[1],), (c[0], c[-1])]
+    num = lambda e: complex(sympy.N(e.subs(env)))
+    for a_i, ka in enumerate(lefts):
+        for b_i, kb in enumerate(rights):
+            xe = [exprs[(a_i + j) % len(exprs)] for j in range(len(ka))]
+            ye = [sympy.Rational(3 + j, 2) for j in range(len(kb))]
+            xs, ys = alg.multivector(keys=ka, values=xe), alg.multivector(keys=kb, values=ye)
+            xn, yn = nmv(alg, ka, [num(e) for e in xe]), nmv(alg, kb, [complex(float(e)) for e in ye])
+            for op in ('gp', 'add', 'op', 'sw', 'ip', 'proj'):
+                res.evals += 1
+                case = {'shard': dict(shard, only=[list(ka), list(kb), op])}
+                try:
+                    want, _ = mvdict(getattr(xn, op)(yn))
+                except Exception:
+                    res.skipped += 1
+                    continue
+                res.nontrivial += 1
+                try:
+                    rs = getattr(xs, op)(ys)
+                    got = {}
+                    for kk, val in rs.items():
+                        got[kk] = got.get(kk, 0) + (num(val) if hasattr(val, 'subs') else complex(val))
+                except Exception as e:
+                    res.violate(violation(f'exprcoef:{op}:raises', f'{name} {op} keys {ka} x {kb} with coefficients {xe}: {type(e).__name__}: {e}', case, show(want), repr(e)))
+                    continue
+                bad = [kk for kk in set(got) | set(want) if not close(got.get(kk, 0), want.get(kk, 0), 1e-9)]
+                if bad:
+                    res.violate(violation(f'exprcoef:{op}:value', f'{name} {op} keys {ka} x {kb} with coefficients {xe}: evaluated at u=-2, v=-3 the result differs from the numeric '
+                                          f'result on blades {sorted(bad)}', case, show(want), show(got)))
+    res.sample({'config': name, 'expression_coefficients': [str(e) for e in exprs], 'point': 'u=-2, v=-3'})
+    return res.asdict()
+
+
 def run_shard(shard):
     if shard.get('kind') == 'callhist':
         return run_call_history(shard)
+    if shard.get('kind') == 'exprcoef':
+        return run_exprcoef(shard)
     import sympy
     res = Result()
     cfg = shard['cfg']
